@@ -106,6 +106,8 @@ def wellFormed (h : History) : Option String := Id.run do
       | (_, drv) :: _ => return some s!"action {idx}: driver n{drv} mutates an expert node it is not a dependency of"
       | [] => pure ()
     | .arm _ => return some s!"action {idx}: fault injection"
+    | .dropAll => pure ()
+    | .expectPanic _ => return some s!"action {idx}: misuse stream"
     | .setMaxHeight _ | .isStable | .stats => pure ()
     idx := idx + 1
   return none
